@@ -28,14 +28,12 @@ Proof.
     destruct (f h) eqn:Fh.
     + assert (r <= h).
       { destruct (N.le_gt_cases r h); [assumption|]. rewrite Hlo in Fh by lia. discriminate. }
-      apply IH; try lia.
-      * unfold h in *. lia.
+      apply IH; try (unfold h in *; lia).
       * intros x Hx. apply Hlo. lia.
       * intros x Hx. apply Hhi. lia.
     + assert (h < r).
       { destruct (N.le_gt_cases r h); [|assumption]. rewrite Hhi in Fh by lia. discriminate. }
-      apply IH; try lia.
-      * unfold h in *. lia.
+      apply IH; try (unfold h in *; lia).
       * intros x Hx. apply Hlo. lia.
       * intros x Hx. apply Hhi. lia.
 Qed.
@@ -135,4 +133,380 @@ Proof.
         -- replace x with (1 + (x - 1)) by lia. rewrite nthN_cons_succ. apply B. lia.
       * intros x Hx. unfold lookup_pred. replace x with (1 + (x - 1)) by lia.
         rewrite nthN_cons_succ. apply C. lia.
+Qed.
+
+(* ---------- the writer's segments ---------- *)
+
+(* value of the last segment starting at or before p; d if there is none *)
+Fixpoint value_at (p : N) (segs : list (N * N)) (d : N) : N :=
+  match segs with
+  | [] => d
+  | (s, v) :: r => if s <=? p then value_at p r v else d
+  end.
+
+(* starts strictly increasing inside [lo, hi) *)
+Fixpoint sorted_from (lo hi : N) (ss : list N) : Prop :=
+  match ss with [] => True | s :: r => lo <= s < hi /\ sorted_from (s + 1) hi r end.
+
+Lemma value_at_before p segs d lo hi :
+  sorted_from lo hi (map fst segs) -> p < lo -> value_at p segs d = d.
+Proof.
+  destruct segs as [|[s v] r]; cbn [map fst sorted_from value_at]; [reflexivity|].
+  intros [H _] Hp. destruct (N.leb_spec s p); [lia|reflexivity].
+Qed.
+
+Lemma sorted_from_weaken ss : forall lo lo' hi, sorted_from lo hi ss -> lo' <= lo -> sorted_from lo' hi ss.
+Proof. destruct ss as [|s r]; cbn [sorted_from]; intros; [exact I|]. split; [lia|tauto]. Qed.
+
+Lemma nth_succ {A} (x : A) l g d : 0 < g -> nth (N.to_nat g) (x :: l) d = nth (N.to_nat (g - 1)) l d.
+Proof. intros H. replace (N.to_nat g) with (S (N.to_nat (g - 1))) by lia. reflexivity. Qed.
+
+Lemma fd_segs_spec l : forall i cur blen n1 segs,
+  fd_segs i cur blen n1 l = Some segs ->
+  sorted_from i (i + lenN l) (map fst segs) /\
+  (forall g, g < lenN l -> nth (N.to_nat g) l 0 = value_at (i + g) segs cur) /\
+  (forall v, In v (map snd segs) -> In v l) /\
+  (i = 0 -> l <> [] -> exists v r, segs = (0, v) :: r).
+Proof.
+  induction l as [|fd r IH]; intros i cur blen n1 segs; cbn [fd_segs].
+  - intros H; inversion H; subst. cbn. repeat split; try tauto. intros g Hg; lia.
+  - destruct (negb (i =? 0) && (fd =? cur)) eqn:C.
+    + (* the glyph continues the current segment *)
+      apply andb_prop in C. destruct C as [C1 C2].
+      apply negb_true_iff in C1. apply N.eqb_neq in C1. apply N.eqb_eq in C2. subst fd.
+      intros H. destruct (IH _ _ _ _ _ H) as (S1 & S2 & S3 & _).
+      cbn [lenN]. repeat split.
+      * replace (i + N.succ (lenN r)) with (i + 1 + lenN r) by lia.
+        eapply sorted_from_weaken; [exact S1|lia].
+      * intros g Hg. destruct (N.eq_dec g 0) as [->|Hg0].
+        -- cbn [N.to_nat nth]. rewrite N.add_0_r.
+           symmetry. eapply value_at_before; [exact S1|lia].
+        -- rewrite nth_succ by lia. rewrite S2 by lia. f_equal. lia.
+      * intros v Hv. right. apply S3. exact Hv.
+      * intros Hi. lia.
+    + destruct (N.leb_spec n1 (blen + 5)); [discriminate|].
+      destruct (fd_segs (i + 1) fd (blen + 3) n1 r) as [s'|] eqn:E; [|discriminate].
+      intros Heq; inversion Heq; subst segs; clear Heq.
+      destruct (IH _ _ _ _ _ E) as (S1 & S2 & S3 & _).
+      cbn [lenN map fst snd sorted_from]. repeat split; try lia.
+      * replace (i + N.succ (lenN r)) with (i + 1 + lenN r) by lia. exact S1.
+      * intros g Hg. cbn [value_at]. destruct (N.leb_spec i (i + g)); [|lia].
+        destruct (N.eq_dec g 0) as [->|Hg0].
+        -- cbn [N.to_nat nth]. rewrite N.add_0_r.
+           symmetry. eapply value_at_before; [exact S1|lia].
+        -- rewrite nth_succ by lia. rewrite S2 by lia. f_equal. lia.
+      * intros v [Hv|Hv]; [left; exact Hv|right; apply S3; exact Hv].
+      * intros Hi _. subst i. eauto.
+Qed.
+
+(* ---------- the reader on the writer's segments ---------- *)
+
+Definition seg_bytes (segs : list (N * N)) : list N :=
+  concat (map (fun s => [nhi8 (fst s); nlo8 (fst s); nlo8 (snd s)]) segs).
+
+Fixpoint chain (i prev np : N) (segs : list (N * N)) : Prop :=
+  match segs with
+  | [] => True
+  | (s, v) :: r =>
+    (if i =? 0 then s = 0 else prev < s) /\ s < 65536 /\ v < 256 /\ v < np /\ chain (i + 1) s np r
+  end.
+
+Lemma fd3_ranges_enc segs : forall i prev np rest,
+  chain i prev np segs ->
+  fd3_ranges (length segs) i prev np (seg_bytes segs ++ rest)
+  = Ok (if i =? 0 then map fst (tl segs) else map fst segs, map snd segs, rest).
+Proof.
+  induction segs as [|[s v] r IH]; intros i prev np rest Hc.
+  - cbn. destruct (i =? 0); reflexivity.
+  - cbn [chain] in Hc. destruct Hc as (H1 & H2 & H3 & H4 & H5).
+    cbn [length fd3_ranges]. unfold seg_bytes. cbn [map concat fst snd]. rewrite <- app_assoc.
+    cbn [app rd_u16]. rewrite nhi_lo by exact H2.
+    assert (Hchk : (negb (i =? 0) && (s <=? prev)) || ((i =? 0) && negb (s =? 0)) = false).
+    { destruct (N.eqb_spec i 0) as [Hi|Hi]; cbn [negb andb orb].
+      - subst s. reflexivity.
+      - rewrite orb_false_r. apply N.leb_gt. exact H1. }
+    rewrite Hchk. cbn [rd_u8].
+    replace (nlo8 v) with v by (unfold nlo8; lia).
+    destruct (N.leb_spec np v); [lia|].
+    fold (seg_bytes r). rewrite (IH (i + 1) s np rest H5).
+    destruct (N.eqb_spec (i + 1) 0); [lia|]. cbn [obind tl map fst snd].
+    destruct (i =? 0); reflexivity.
+Qed.
+
+(* the closure finds the segment containing gid *)
+Lemma nth_first_idx rest : forall s0 v0 g n d,
+  sorted_from s0 n (s0 :: map fst rest) -> s0 <= g < n ->
+  nthN (map snd ((s0, v0) :: rest)) (first_idx g (map fst rest ++ [n]))
+  = Some (value_at g ((s0, v0) :: rest) d).
+Proof.
+  induction rest as [|[s1 v1] rest IH]; intros s0 v0 g n d Hs Hg.
+  - cbn [map app first_idx]. destruct (N.ltb_spec g n); [|lia].
+    cbn [value_at]. destruct (N.leb_spec s0 g); [|lia]. reflexivity.
+  - cbn [map fst app first_idx]. cbn [sorted_from map fst] in Hs.
+    destruct Hs as (Hs0 & Hs1 & Hs2).
+    cbn [value_at]. destruct (N.leb_spec s0 g); [|lia].
+    destruct (N.ltb_spec g s1) as [Hlt|Hge].
+    + destruct (N.leb_spec s1 g); [lia|]. reflexivity.
+    + destruct (N.leb_spec s1 g); [|lia].
+      cbn [map snd]. rewrite nthN_cons_succ.
+      specialize (IH s1 v1 g n v0).
+      cbn [map snd value_at] in IH. destruct (N.leb_spec s1 g) in IH; [|lia].
+      apply IH; [|lia]. cbn [sorted_from]. split; [lia|exact Hs2].
+Qed.
+
+Lemma sorted_incr ss : forall lo hi p,
+  sorted_from lo hi ss -> p < lo -> p < hi -> incr p (ss ++ [hi]).
+Proof.
+  induction ss as [|s r IH]; intros lo hi p H Hp Hh; cbn [app incr sorted_from] in *.
+  - split; [exact Hh|exact I].
+  - destruct H as [H1 H2]. split; [lia|]. eapply IH; [exact H2|lia|lia].
+Qed.
+
+Lemma fd3_lookup_ok v0 rest n g :
+  sorted_from 0 n (0 :: map fst rest) -> g < n ->
+  fd3_lookup (lenN ((0, v0) :: rest)) (map fst rest ++ [n]) (map snd ((0, v0) :: rest)) g
+  = Ok (value_at g ((0, v0) :: rest) 0).
+Proof.
+  intros Hs Hg. unfold fd3_lookup.
+  set (E := map fst rest ++ [n]).
+  set (nR := lenN ((0, v0) :: rest)).
+  assert (HlenE : lenN E = nR).
+  { unfold E, nR. rewrite lenN_app, lenN_map. cbn [lenN]. lia. }
+  cbn [sorted_from] in Hs. destruct Hs as [Hs0 Hs1].
+  assert (Hinc : incr 0 E).
+  { unfold E. eapply sorted_incr; [exact Hs1|lia|lia]. }
+  destruct (first_idx_threshold E 0 g Hinc) as (A & B & C).
+  change (fun i : N => match nthN E i with Some e => g <? e | None => false end) with (lookup_pred E g).
+  rewrite (bsearch_threshold _ (lookup_pred E g) 0 nR (first_idx g E)).
+  - unfold E. rewrite (nth_first_idx rest 0 v0 g n 0); [reflexivity| |lia].
+    cbn [sorted_from]. split; [lia|exact Hs1].
+  - lia.
+  - pose proof (size_pow nR). lia.
+  - intros x Hx. apply B. lia.
+  - intros x Hx. apply C. lia.
+Qed.
+
+Lemma map_outcome_nth (f : N -> outcome N) l : forall base,
+  (forall g, g < lenN l -> f (base + g) = Ok (nth (N.to_nat g) l 0)) ->
+  map_outcome f (seqN base (length l)) = Ok l.
+Proof.
+  induction l as [|x l IH]; intros base H; cbn [length seqN map_outcome].
+  - reflexivity.
+  - pose proof (H 0 ltac:(cbn [lenN]; lia)) as H0. rewrite N.add_0_r in H0. rewrite H0.
+    cbn [N.to_nat nth obind].
+    rewrite (IH (base + 1)).
+    + reflexivity.
+    + intros g Hg. specialize (H (1 + g) ltac:(cbn [lenN]; lia)).
+      replace (base + 1 + g) with (base + (1 + g)) by lia. rewrite H.
+      rewrite nth_succ by lia. do 3 f_equal. lia.
+Qed.
+
+Lemma forallb_lt fds np : Forall (fun x => x < np) fds -> forallb (fun b => b <? np) fds = true.
+Proof.
+  induction 1 as [|x l Hx Hl IH]; cbn [forallb]; [reflexivity|].
+  rewrite IH, andb_true_r. apply N.ltb_lt. exact Hx.
+Qed.
+
+Lemma map_nlo8 fds : Forall (fun x => x < 256) fds -> map nlo8 fds = fds.
+Proof.
+  induction 1 as [|x l Hx Hl IH]; cbn [map]; [reflexivity|].
+  rewrite IH. f_equal. unfold nlo8. lia.
+Qed.
+
+Lemma chain_of_sorted segs : forall i prev np n,
+  sorted_from (if i =? 0 then 0 else prev + 1) n (map fst segs) ->
+  (i = 0 -> segs <> [] -> exists v r, segs = (0, v) :: r) ->
+  n <= 65536 ->
+  (forall v, In v (map snd segs) -> v < 256 /\ v < np) ->
+  chain i prev np segs.
+Proof.
+  induction segs as [|[s v] r IH]; intros i prev np n Hs Hfirst Hn Hv; cbn [chain]; [exact I|].
+  cbn [map fst sorted_from] in Hs. destruct Hs as [Hs1 Hs2].
+  destruct (Hv v ltac:(left; reflexivity)) as [Hv1 Hv2].
+  repeat split; try lia.
+  - destruct (N.eqb_spec i 0) as [Hi|Hi].
+    + destruct (Hfirst Hi ltac:(congruence)) as (v' & r' & E). inversion E. reflexivity.
+    + lia.
+  - apply (IH (i + 1) s np n).
+    + destruct (N.eqb_spec (i + 1) 0); [lia|]. exact Hs2.
+    + intros; lia.
+    + exact Hn.
+    + intros w Hw. apply Hv. right. exact Hw.
+Qed.
+
+Lemma sorted_from_len ss : forall lo n, sorted_from lo n ss -> lenN ss <= n - lo.
+Proof.
+  induction ss as [|s r IH]; intros lo n H; cbn [lenN sorted_from] in *; [lia|].
+  destruct H as [H1 H2]. specialize (IH (s + 1) n H2). lia.
+Qed.
+
+Lemma fdselect_roundtrip_gen fds np tail :
+  Forall (fun x => x < 256) fds -> Forall (fun x => x < np) fds ->
+  lenN fds < 65536 ->
+  M_fdselect_read (lenN fds) np (M_fdselect_encode fds ++ tail) = Ok (fds, tail).
+Proof.
+  intros H256 Hnp Hn. unfold M_fdselect_encode.
+  destruct (fd_segs 0 0 3 (lenN fds + 1) fds) as [segs|] eqn:E.
+  - (* format 3 *)
+    destruct (fd_segs_spec _ _ _ _ _ _ E) as (S1 & S2 & S3 & S4).
+    rewrite N.add_0_l in S1.
+    unfold M_fdselect_read. cbn [app rd_u8]. cbn [N.eqb Pos.eqb].
+    assert (Hsegs : lenN segs <= lenN fds).
+    { (* the starts are distinct positions below the number of glyphs *)
+      pose proof (sorted_from_len _ _ _ S1) as Hl. rewrite lenN_map in Hl. lia. }
+    rewrite <- !app_assoc. cbn [app rd_u16]. rewrite nhi_lo by lia.
+    destruct fds as [|fd0 fr].
+    + (* no glyphs: an empty format 3 table *)
+      cbn in E. inversion E; subst segs. cbn. reflexivity.
+    + destruct (S4 eq_refl ltac:(congruence)) as (v0 & rest & ->).
+      set (fds := fd0 :: fr) in *.
+      assert (Hnz : (0 <? lenN fds) && (lenN ((0, v0) :: rest) =? 0) = false).
+      { cbn [lenN]. destruct (N.eqb_spec (N.succ (lenN rest)) 0); [lia|]. apply andb_false_r. }
+      rewrite Hnz.
+      replace (N.to_nat (lenN ((0, v0) :: rest))) with (length ((0, v0) :: rest))
+        by (rewrite lenN_length; lia).
+      fold (seg_bytes ((0, v0) :: rest)).
+      rewrite (fd3_ranges_enc ((0, v0) :: rest) 0 0 np).
+      * cbn [N.eqb tl]. cbn [obind rd_u16]. rewrite nhi_lo by lia.
+        rewrite N.eqb_refl. cbn [negb].
+        replace (lenN fds mod 65536) with (lenN fds) by lia.
+        replace (N.to_nat (lenN fds)) with (length fds) by (rewrite lenN_length; lia).
+        rewrite (map_outcome_nth _ fds 0).
+        -- reflexivity.
+        -- intros g Hg. rewrite N.add_0_l.
+           rewrite (fd3_lookup_ok v0 rest (lenN fds) g); [|exact S1|exact Hg].
+           rewrite (S2 g Hg). rewrite N.add_0_l. reflexivity.
+      * apply (chain_of_sorted _ 0 0 np (lenN fds)).
+        -- cbn [N.eqb]. exact S1.
+        -- intros _ _. eauto.
+        -- lia.
+        -- intros v Hv. specialize (S3 v Hv).
+           rewrite Forall_forall in H256, Hnp. split; [apply H256|apply Hnp]; exact S3.
+  - (* format 0 *)
+    unfold M_fdselect_read. cbn [app rd_u8]. cbn [N.eqb].
+    rewrite map_nlo8 by exact H256. rewrite splitN_app.
+    rewrite forallb_lt by exact Hnp. reflexivity.
+Qed.
+
+(* ---------- totality ---------- *)
+
+Lemma fd3_ranges_shape k : forall i prev np inp ends fdIdx r,
+  fd3_ranges k i prev np inp = Ok (ends, fdIdx, r) ->
+  length fdIdx = k /\
+  length ends = (if i =? 0 then Nat.pred k else k) /\
+  Forall (fun fd => fd < np) fdIdx.
+Proof.
+  induction k as [|k IH]; intros i prev np inp ends fdIdx r; cbn [fd3_ranges].
+  - intros H; inversion H; subst. destruct (i =? 0); repeat split; constructor.
+  - destruct (rd_u16 inp) as [[first r1]|]; [|discriminate].
+    destruct ((negb (i =? 0) && (first <=? prev)) || ((i =? 0) && negb (first =? 0))); [discriminate|].
+    destruct (rd_u8 r1) as [[fd r2]|]; [|discriminate].
+    destruct (N.leb_spec np fd); [discriminate|].
+    destruct (fd3_ranges k (i + 1) first np r2) as [[[e f] r3]| | |] eqn:E; cbn [obind]; try discriminate.
+    intros Hx; inversion Hx; subst; clear Hx.
+    destruct (IH _ _ _ _ _ _ _ E) as (A & B & C).
+    destruct (N.eqb_spec (i + 1) 0); [lia|].
+    cbn [length]. repeat split.
+    + lia.
+    + destruct (i =? 0); cbn [length Nat.pred]; lia.
+    + constructor; assumption.
+Qed.
+
+Lemma nthN_app_last (l : list N) x : nthN (l ++ [x]) (lenN l) = Some x.
+Proof.
+  unfold nthN. rewrite lenN_length, Nat2N.id.
+  rewrite nth_error_app2 by lia. rewrite Nat.sub_diag. reflexivity.
+Qed.
+
+Lemma fd3_lookup_total nR ends0 fdIdx n np g :
+  1 <= nR -> lenN ends0 = nR - 1 -> lenN fdIdx = nR -> g < n ->
+  Forall (fun fd => fd < np) fdIdx ->
+  exists fd, fd3_lookup nR (ends0 ++ [n]) fdIdx g = Ok fd /\ fd < np.
+Proof.
+  intros HnR He Hf Hg Hall. unfold fd3_lookup.
+  set (f := fun i : N => match nthN (ends0 ++ [n]) i with Some e => g <? e | None => false end).
+  pose proof (bsearch_inv (S (N.to_nat (N.size nR))) f 0 nR nR ltac:(lia)
+                ltac:(pose proof (size_pow nR); lia) (or_introl eq_refl) (or_introl eq_refl)) as (A & B & C).
+  cbn zeta in *.
+  set (r := bsearch (S (N.to_nat (N.size nR))) f 0 nR) in *.
+  assert (Hr : r < nR).
+  { destruct (N.eq_dec r nR) as [Er|Er]; [|lia].
+    destruct B as [B|B]; [lia|].
+    rewrite Er in B. unfold f in B. rewrite <- He in B. rewrite nthN_app_last in B.
+    apply N.ltb_ge in B. lia. }
+  unfold nthN. destruct (nth_error fdIdx (N.to_nat r)) as [fd|] eqn:En.
+  - exists fd. split; [reflexivity|]. rewrite Forall_forall in Hall. apply Hall.
+    eapply nth_error_In; exact En.
+  - apply nth_error_None in En. rewrite lenN_length in Hf. lia.
+Qed.
+
+Lemma map_outcome_total (f : N -> outcome N) (P : N -> Prop) l :
+  (forall g, In g l -> exists v, f g = Ok v /\ P v) ->
+  exists t, map_outcome f l = Ok t /\ length t = length l /\ Forall P t.
+Proof.
+  induction l as [|x l IH]; intros H; cbn [map_outcome].
+  - exists []. repeat split. constructor.
+  - destruct (H x ltac:(left; reflexivity)) as (v & Hv & Pv). rewrite Hv. cbn [obind].
+    destruct IH as (t & Ht & Hl & Hp); [intros g Hg; apply H; right; exact Hg|].
+    rewrite Ht. cbn [obind]. exists (v :: t). repeat split; [cbn [length]; lia|constructor; assumption].
+Qed.
+
+Lemma in_seqN g first k : In g (seqN first k) -> first <= g < first + N.of_nat k.
+Proof.
+  revert first; induction k as [|k IH]; intros first; cbn [seqN In]; [tauto|].
+  intros [<-|H]; [lia|]. specialize (IH _ H). lia.
+Qed.
+
+Lemma fd3_ranges_no_panic k : forall i prev np inp,
+  fd3_ranges k i prev np inp <> Panic /\ fd3_ranges k i prev np inp <> OutOfFuel.
+Proof.
+  induction k as [|k IH]; intros i prev np inp; cbn [fd3_ranges]; [split; discriminate|].
+  destruct (rd_u16 inp) as [[first q1]|]; [|split; discriminate].
+  destruct ((negb (i =? 0) && (first <=? prev)) || ((i =? 0) && negb (first =? 0))); [split; discriminate|].
+  destruct (rd_u8 q1) as [[fd q2]|]; [|split; discriminate].
+  destruct (np <=? fd); [split; discriminate|].
+  destruct (IH (i + 1) first np q2) as [A B].
+  destruct (fd3_ranges k (i + 1) first np q2) as [[[e f] q3]| | |]; cbn [obind];
+    split; try discriminate; congruence.
+Qed.
+
+(* nGlyphs is the length of the CharStrings INDEX, hence below 65536 *)
+Lemma fdselect_read_total_gen n np inp :
+  n < 65536 ->
+  match M_fdselect_read n np inp with
+  | Ok (tbl, _) => lenN tbl = n /\ Forall (fun fd => fd < np) tbl
+  | Err => True
+  | Panic | OutOfFuel => False
+  end.
+Proof.
+  intros Hn. unfold M_fdselect_read.
+  destruct (rd_u8 inp) as [[format r0]|]; [|exact I].
+  destruct (format =? 0).
+  - destruct (splitN r0 n) as [[buf r1]|] eqn:S; [|exact I].
+    destruct (forallb (fun b => b <? np) buf) eqn:F; [|exact I].
+    apply splitN_inv in S. destruct S as [_ S]. split; [exact S|].
+    rewrite forallb_forall in F. apply Forall_forall. intros x Hx. apply N.ltb_lt. apply F. exact Hx.
+  - destruct (format =? 3); [|exact I].
+    destruct (rd_u16 r0) as [[nRanges r1]|]; [|exact I].
+    destruct ((0 <? n) && (nRanges =? 0)) eqn:Z; [exact I|].
+    destruct (fd3_ranges_no_panic (N.to_nat nRanges) 0 0 np r1) as [NP NF].
+    destruct (fd3_ranges (N.to_nat nRanges) 0 0 np r1) as [[[ends0 fdIdx] r2]| | |] eqn:E;
+      cbn [obind]; try exact I; try congruence.
+    destruct (fd3_ranges_shape _ _ _ _ _ _ _ _ E) as (A & B & C). cbn [N.eqb] in B.
+    destruct (rd_u16 r2) as [[sentinel r3]|]; [|exact I].
+    destruct (N.eqb_spec sentinel n) as [->|]; cbn [negb]; [|exact I].
+    destruct (N.eq_dec n 0) as [->|Hn0].
+    + cbn. split; [reflexivity|constructor].
+    + assert (HnR : 1 <= nRanges).
+      { destruct (N.eqb_spec nRanges 0) as [->|]; [|lia].
+        destruct (N.ltb_spec 0 n); [discriminate|lia]. }
+      replace (n mod 65536) with n by lia.
+      destruct (map_outcome_total (fd3_lookup nRanges (ends0 ++ [n]) fdIdx)
+                  (fun fd => fd < np) (seqN 0 (N.to_nat n))) as (t & Ht & Hl & Hp).
+      * intros g Hg. apply in_seqN in Hg.
+        apply fd3_lookup_total; try lia; try assumption.
+        -- rewrite lenN_length, B. lia.
+        -- rewrite lenN_length, A. lia.
+      * rewrite Ht. cbn [obind]. split; [|exact Hp].
+        rewrite lenN_length, Hl, seqN_length. lia.
 Qed.
